@@ -469,6 +469,10 @@ def rt_replay_dict(mdefs, d, m, **extra):
     return dict({'kind': 'rt', 'reg': [sx(fc.mdef_sx(x)) for x in mdefs], 'mdef': sx(fc.mdef_sx(d)), 'msg': sx(fc.msg_sx(m))}, **extra)
 
 
+MAX_SHRINKS = 2          # per run: shrinking rebuilds the dictionary classes many times (and Field.Def only grows)
+_shrinks = [0]
+
+
 def report_shrunk(ctx, mdefs, d, m, msg, r):
     """run the oracle; on failure shrink the case first and report the minimal one"""
     col = Collector()
@@ -476,9 +480,15 @@ def report_shrunk(ctx, mdefs, d, m, msg, r):
     if col.first is None:
         return True
     known = any(k['signature'].get('finding') == col.first for k in KNOWN_LOCAL + common.load_known('C13'))
+    ctx.count('known:' + col.first if known else 'violation:' + col.first)
     if known and ctx.known_hits:
-        ctx.count('known:' + col.first)
         return False          # already reported once this run: no need to shrink again
+    if len(ctx.violations) >= 20:
+        return False
+    if _shrinks[0] >= MAX_SHRINKS:
+        oracle_rt(ctx, d, m, msg, r, rt_replay_dict(mdefs, d, m))
+        return False
+    _shrinks[0] += 1
     d2, m2 = shrunk_replay(d, m)
     d2 = dict(d2, name=fc.fresh_name())
     built = fc.build_dictionary([d2])
@@ -486,7 +496,6 @@ def report_shrunk(ctx, mdefs, d, m, msg, r):
     msg2 = got[1]
     r2 = impl_rt({d2['name']: d2}, msg2)
     oracle_rt(ctx, d2, m2, msg2, r2, rt_replay_dict([d2], d2, m2))
-    ctx.count('known:' + col.first if known else 'violation:' + col.first)
     return False
 
 
